@@ -164,7 +164,7 @@ def main():
         "sigma-apr 1 because with sigma-apr 10 algorithm envelope refuses about a third of the admissible sets at non-lattice linearization points (known finding C09|run|failed|*|envelope, absolute pivot tolerance; "
         "the same cause leaves 1e-6 .. 1e-4 m in envelope's minimal-norm condition: known finding C08|not-minimal-over-constrained|s?|iterated*|envelope); "
         "networks with a fixed point, vectors (linear: no iteration) and 2-D networks are not iterated; after iterating the rotation part of the minimal-norm clause is only tested to the 1e-6 m rounding of <approximate>",
-        "dangling point at (300,150[,20]): no sight to it is parallel to a coordinate axis (an axis-parallel single sight gives 0/0 in LocalNetwork::singular_coords and is not removed there: a removal question, property C20); one dangling point per input; under-determined attachments that the solver-dependent null_space() path would have to remove (e.g. a station with two directions) are not generated; non-minimal constraint sets other than the full one are run without dangling point only",
+        "dangling point at (300,150[,20]): no sight to it is parallel to a coordinate axis, except for the attachment distx (one distance exactly along the x axis of its anchor: the y column of the point is exactly zero, 0/0 in the collinearity measure of LocalNetwork::singular_coords; must be removed like the others since repair 796e8cc); one dangling point per input; under-determined attachments that the solver-dependent null_space() path would have to remove (e.g. a station with two directions) are not generated; non-minimal constraint sets other than the full one are run without dangling point only",
         "noise +-0.5 mm / +-1.5 cc; the check asserts every coordinate correction <= 4 mm, which bounds the second-order linearisation term of any distance by 1.6e-7 m (6x below the 1e-6 m tolerance; typical margin 25-100x); --iterations 0 so that 'correction' means adjusted - given approximate value",
         "standard deviations compared with 1e-6 mm|cc + 1e-8 relative; [pvv] with 3e-7 relative (8 printed digits); qrr/f/std-residual with two units of their 3 printed decimals",
         "solver level: " + "integer design matrices with entries in {-2..2}, n<=%s unknowns" % ("4" if tier == "thorough" else "3")])
